@@ -316,6 +316,15 @@ def main(tier, seed, replay=None):
         "/h/{X-Key}/{type}": {"parameters": [{"name": "X-Key", "in": "header", "schema": {"type": "string"}}],
                               "get": {"operationId": "get_h", "parameters": [{"name": "type", "in": "query", "schema": {"type": "integer"}}], "responses": okr0}}},
         "components": {"schemas": {}}}, ["ops:undeclared-path-variables-named-like-other-parameters"]))
+    # schema names that are not Rust identifiers, a named union and the same references written inline
+    cases.append(({"openapi": "3.1.0", "info": {"title": "t", "version": "1"}, "paths": {"/o": {"get": {"operationId": "get_order", "responses": {"200": {"description": "ok", "content": {"application/json": {"schema": {"$ref": "#/components/schemas/order"}}}}}}}},
+                   "components": {"schemas": {"card-pay": {"type": "object", "properties": {"pan": {"type": "string"}}}, "bank.pay": {"type": "object", "properties": {"iban": {"type": "string"}}},
+                                              "payment-method": {"oneOf": [{"$ref": "#/components/schemas/card-pay"}, {"$ref": "#/components/schemas/bank.pay"}]},
+                                              "1st-choice": {"anyOf": [{"$ref": "#/components/schemas/card-pay"}, {"$ref": "#/components/schemas/bank.pay"}]},
+                                              "order": {"type": "object", "properties": {"primary": {"$ref": "#/components/schemas/payment-method"},
+                                                                                        "fallback": {"oneOf": [{"$ref": "#/components/schemas/card-pay"}, {"$ref": "#/components/schemas/bank.pay"}]},
+                                                                                        "other": {"type": "array", "items": {"anyOf": [{"$ref": "#/components/schemas/bank.pay"}, {"$ref": "#/components/schemas/card-pay"}]}}}}}}},
+                  ["ops:raw-schema-names-in-unions"]))
     # a deep acyclic schema graph with exponentially many reference paths (40 tiers of 2 schemas, each referring to both of the next tier)
     tiers = 40
     dsch = {}
@@ -407,9 +416,28 @@ def main(tier, seed, replay=None):
             viol.append((base, ["second-write-fails"], mode, f"generate {mode} exited 0 although {second} could not be written"))
         elif after != before:
             known_hits.add("non-atomic-module-write")
+    # (c) --doc-format: documentation goes through an external `mdformat`; with a stand-in on PATH (and with none) every mode ends cleanly
+    stub = os.path.join(d, "stubbin")
+    os.makedirs(stub, exist_ok=True)
+    open(os.path.join(stub, "mdformat"), "w").write("#!/bin/sh\nexec cat\n")
+    os.chmod(os.path.join(stub, "mdformat"), 0o755)
+    long_text = "A fairly long description that goes well beyond one hundred characters so that the formatter is really invoked for it. " * 2
+    dspec = {"openapi": "3.1.0", "info": {"title": "Docs", "version": "1", "description": long_text}, "paths": {"/d": {"get": {"operationId": "get_doc", "summary": "s", "description": long_text,
+             "responses": {"200": {"description": long_text, "content": {"application/json": {"schema": {"$ref": "#/components/schemas/Doc"}}}}}}}},
+             "components": {"schemas": {"Doc": {"type": "object", "description": long_text, "properties": {"k": {"type": "string", "description": long_text}}}}}}
+    dsp = os.path.join(d, "docs.json")
+    json.dump(dspec, open(dsp, "w"))
+    for mode in MODES:
+        for label, path_env in (("stand-in", stub + os.pathsep + os.environ.get("PATH", "")), ("absent", stub + "-none")):
+            n_fs += 1
+            outp = os.path.join(d, f"doc_{mode}_{label}" + ("" if mode.endswith("-mod") else ".rs"))
+            rc, txt = vlib.oas(["generate", mode, "-i", dsp, "-o", outp, "-q", "--doc-format"], timeout=60, env=dict(vlib.ENV, PATH=path_env))
+            snap = snapshot(outp)
+            if rc != 0 or "panicked" in txt or not snap:
+                viol.append((dspec, ["--doc-format", f"mdformat {label}"], mode, f"generate {mode} --doc-format (mdformat {label}): rc={rc}, files {sorted(snap)}: {txt[-250:]}"))
     res.counts.update({"evaluations": len(jobs) + n_fs, "distinct_nontrivial": len(cases), "input_distribution": dist,
                        "traces_validated_against_impl": len(jobs),
-                       "rule": "feature-grammar specs passed through 12 structure-aware mutators (allOf cycles, self / dangling refs, deletion, empty and huge names, keyword names, OPTIONS/TRACE/HEAD methods, deep nesting, contradictory constraints, type confusion, schema-suffixed response variants), singly and in pairs, x modes; each run under a 20 s timeout observing exit status, signal, stderr, the output listing, and `list operations`; plus unwritable / half-writable output targets"})
+                       "rule": "feature-grammar specs passed through 12 structure-aware mutators (allOf cycles, self / dangling refs, deletion, empty and huge names, keyword names, OPTIONS/TRACE/HEAD methods, deep nesting, contradictory constraints, type confusion, schema-suffixed response variants), singly and in pairs, x modes; each run under a 20 s timeout observing exit status, signal, stderr, the output listing, and `list operations`; plus unwritable / half-writable output targets and --doc-format with a stand-in for / without the external mdformat"})
     for spec, tags in cases[:2] + cases[14:16]:
         res.sample({"mutators": tags, "schemas": sorted(spec.get("components", {}).get("schemas", {}))[:6]})
     res.cov["trusted_base"] = vlib.COMMON_TRUSTED + ["coq/Model/Termination.v: hand models of compute_depth and of the output phase's effect order", "tools/vtool inventory (syntactic panic sites)"]
